@@ -240,6 +240,9 @@ static void exec_line(const char *line_in) {
         if (dst) memset(dst, 0xAA, cap);
         int r = binson_parser_to_string(p, dst, &sz, chance(50));
         fprintf(fout, "%d z%zu m", r, sz); if (dst) memout(fout, (uint8_t *)dst, cap); else fputs("NULL", fout);
+        /* x: what the property speaks about on success - the text and its terminator (the bytes of the destination after the terminator
+           are not specified; they are part of m, which only the model comparison looks at) */
+        fputs(" x", fout); if (r && dst && sz + 1 <= cap) memout(fout, (uint8_t *)dst, sz + 1); else fputc('-', fout);
         fprintf(fout, " e%d d%zu u%zu%s\n", (int)p->error_flags, binson_parser_get_depth(p), p->buffer_used, cb_left(p));
         free(dst);
     } else if (!strcmp(op, "tsH")) {
